@@ -254,3 +254,150 @@ Proof.
   pose proof (group_vi s d Hs m wb X Z Pw Lw RX RZ) as V. cbv zeta in V. unfold Rdiv. lra.
 Qed.
 
+
+(* ================= IndicatorGroupL1UnitBall(X^d, exponent 2): proximal_convex_conj_l1_l2 ================= *)
+(* ---------------- one point: projection onto the unit ball of R^d ---------------- *)
+Definition bproj (xh : Rvec) : Rvec := map (fun a => a / (Rmax (sqrt (dot xh xh)) 1 / 1)) xh.
+
+Lemma dot_cs d (a b : Rvec) : length a = d -> length b = d -> dot a b <= sqrt (dot a a) * sqrt (dot b b).
+Proof.
+  intros Ha Hb. pose proof (cauchy_schwarz d (repeat 1 d) a b (allpos_ones d) (repeat_length _ _) Ha Hb) as C.
+  rewrite !(wnormsq_ones d) in C by assumption. rewrite (wdot_repeat d) in C by assumption. lra.
+Qed.
+Lemma dot_self_map_div c (x : Rvec) : dot (map (fun a => a / c) x) (map (fun a => a / c) x) = dot x x / (c * c).
+Proof.
+  destruct (Req_dec c 0) as [->|Hc].
+  - induction x as [|a x IH]; cbn [map]; [unfold dot; cbn; numR; unfold Rdiv; ring|].
+    rewrite !dot_cons, IH. unfold Rdiv. rewrite Rmult_0_l, !Rinv_0. ring.
+  - induction x as [|a x IH]; cbn [map]; [unfold dot; cbn; numR; unfold Rdiv; ring|].
+    rewrite !dot_cons, IH. field. assumption.
+Qed.
+Lemma vsub_map_div d c : forall x : Rvec, c <> 0 -> length x = d ->
+  vsub x (map (fun a => a / c) x) = vscal (c - 1) (map (fun a => a / c) x).
+Proof.
+  induction d as [|d IHd]; intros [|a x] Hc Hx; cbn [length] in *; try lia; [reflexivity|].
+  unfv. cbn [map vmap2]. f_equal; [numR; field; assumption | apply IHd; auto; lia].
+Qed.
+
+Lemma bproj_vi d (xh zh : Rvec) : length xh = d -> length zh = d ->
+  dot (bproj xh) (bproj xh) <= 1 /\
+  (dot zh zh <= 1 -> dot (vsub zh (bproj xh)) (vsub xh (bproj xh)) <= 0).
+Proof.
+  intros Hx Hz. unfold bproj. set (N := sqrt (dot xh xh)).
+  assert (HN0 : 0 <= N) by apply sqrt_pos.
+  assert (HNN : N * N = dot xh xh) by (apply sqrt_sqrt, dot_self_nonneg).
+  destruct (Rle_dec N 1) as [H1|H1].
+  - rewrite Rmax_right by assumption. replace (1 / 1) with 1 by field.
+    assert (E : map (fun a => a / 1) xh = xh).
+    { rewrite <- (map_id xh) at 2. apply map_ext. intros a. field. }
+    rewrite E. split; [nra|]. intros _. rewrite (vsub_self d) by assumption. rewrite (dot_zero_r d) by auto with vlen. lra.
+  - apply Rnot_le_lt in H1. rewrite Rmax_left by lra. replace (N / 1) with N by field.
+    set (ph := map (fun a => a / N) xh).
+    assert (Lp : length ph = d) by (unfold ph; rewrite map_length; assumption).
+    assert (Hpp : dot ph ph = 1) by (unfold ph; rewrite dot_self_map_div, <- HNN; field; lra).
+    split; [lra|]. intros Hzz. unfold ph at 2. rewrite (vsub_map_div d) by (auto; lra). fold ph.
+    rewrite dot_vscal_r, (dot_vsub_l d) by assumption. rewrite Hpp.
+    pose proof (dot_cs d zh ph Hz Lp) as C. rewrite Hpp, sqrt_1 in C.
+    assert (sqrt (dot zh zh) <= 1) by (rewrite <- sqrt_1; apply sqrt_le_1_alt; assumption).
+    assert (dot zh ph - 1 <= 0) by lra. nra.
+Qed.
+
+(* ---------------- the field ---------------- *)
+Definition crows (delta : Rvec) (X : list Rvec) : list Rvec := map (fun c => vdiv c delta) X.
+Definition cdelta (m : nat) (X : list Rvec) : Rvec := map (fun a => Rmax a 1 / 1) (map sqrt (cn m X)).
+Definition feasible (m : nat) (M : list Rvec) : Prop := Forall (fun a => a <= 1) (cn m M).
+
+Lemma crows_rows d m delta X : rows_ok d m X -> length delta = m -> rows_ok d m (crows delta X).
+Proof.
+  intros [L R] Hd. split; [unfold crows; rewrite map_length; assumption|].
+  unfold crows. clear L. induction R; cbn [map]; constructor; auto. apply vdiv_len; assumption.
+Qed.
+Lemma crows_peel d m d0 delta X : rows_ok d (S m) X ->
+  heads (crows (d0 :: delta) X) = map (fun a => a / d0) (heads X) /\
+  tails (crows (d0 :: delta) X) = crows delta (tails X).
+Proof.
+  intros [L R]. clear L. induction R as [|r X Hr HX IH]; [split; reflexivity|].
+  destruct IH as [E1 E2]. destruct r as [|a r]; [cbn in Hr; lia|].
+  unfold crows, heads, tails in *. cbn [map]. rewrite E1, E2. unfv. cbn [vmap2 hd tl]. split; reflexivity.
+Qed.
+
+Lemma cn_zero (M : list Rvec) : cn 0 M = [].
+Proof.
+  induction M as [|c M IH]; [reflexivity|].
+  change (cn 0 (c :: M)) with (vmap2 (fun a b => a * a + b) c (cn 0 M)). rewrite IH. destruct c; reflexivity.
+Qed.
+
+Theorem groupball_vi d : forall m (wb : Rvec) (X : list Rvec), allpos wb -> length wb = m -> rows_ok d m X ->
+  let P := crows (cdelta m X) X in
+  feasible m P /\
+  forall Z, rows_ok d m Z -> feasible m Z -> mdot wb (msub Z P) (msub X P) <= 0.
+Proof.
+  induction m as [|m IHm]; intros wb X Pw Lw RX P.
+  - destruct wb; [|discriminate]. split.
+    + unfold feasible. rewrite cn_zero. constructor.
+    + intros Z _ _. rewrite mdot_nil_w. lra.
+  - destruct wb as [|w0 wb]; [discriminate|]. inversion Pw as [|? ? Hw0 Pw']; subst. cbn [length] in Lw.
+    assert (Ed : cdelta (S m) X = Rmax (sqrt (dot (heads X) (heads X))) 1 / 1 :: cdelta m (tails X)).
+    { unfold cdelta. rewrite (cn_peel d) by assumption. reflexivity. }
+    assert (Ld : length (cdelta (S m) X) = S m) by (unfold cdelta; rewrite !map_length; apply (cn_len d); assumption).
+    assert (RP : rows_ok d (S m) P) by (apply crows_rows; assumption).
+    unfold P in *. rewrite Ed in *.
+    destruct (crows_peel d m (Rmax (sqrt (dot (heads X) (heads X))) 1 / 1) (cdelta m (tails X)) X RX) as [HP TP].
+    set (P' := crows (Rmax (sqrt (dot (heads X) (heads X))) 1 / 1 :: cdelta m (tails X)) X) in *.
+    assert (HPb : heads P' = bproj (heads X)) by (rewrite HP; reflexivity).
+    pose proof (rows_tails d m X RX) as RtX.
+    destruct (IHm wb (tails X) Pw' ltac:(lia) RtX) as [F' V']. rewrite <- TP in F', V'.
+    destruct (bproj_vi d (heads X) (heads X) (heads_len d _ X RX) (heads_len d _ X RX)) as [B1 _].
+    split.
+    + unfold feasible. rewrite (cn_peel d m P') by assumption. constructor; [rewrite HPb; exact B1|exact F'].
+    + intros Z RZ FZ. unfold feasible in FZ. rewrite (cn_peel d m Z) in FZ by assumption.
+      pose proof (Forall_inv FZ) as FZ0. pose proof (Forall_inv_tail FZ) as FZt. cbn beta in FZ0.
+      rewrite (mdot_peel d m) by (apply msub_rows; assumption).
+      destruct (msub_heads d m Z P' RZ RP) as [E1 E2]. destruct (msub_heads d m X P' RX RP) as [E3 E4].
+      rewrite E1, E2, E3, E4, HPb.
+      destruct (bproj_vi d (heads X) (heads Z) (heads_len d _ X RX) (heads_len d _ Z RZ)) as [_ B2].
+      specialize (B2 FZ0). specialize (V' (tails Z) (rows_tails d m Z RZ) FZt). nra.
+Qed.
+
+Lemma forallb_le1 (l : Rvec) : forallb (fun a => Rleb a 1) l = true <-> Forall (fun a => a <= 1) l.
+Proof.
+  induction l as [|a l IH]; cbn [forallb]; split; intros H; try constructor; try reflexivity.
+  - destruct (Rleb_spec a 1); [assumption|discriminate].
+  - apply IH. destruct (Rleb a 1); [assumption|discriminate].
+  - inversion H; subst. destruct (Rleb_spec a 1); [apply IH; assumption|contradiction].
+Qed.
+
+Theorem groupball_leaf_prox m d (wb x : Rvec) s : 0 < s -> (1 <= d)%nat -> allpos wb -> length wb = m ->
+  length x = (d * m)%nat ->
+  let w := concat (repeat wb d) in
+  is_proxs (d * m) (@leaf_val R _ _ (FGroupBall m d true) w) (metric w (repeat s (d * m))) x
+           (@prox_cc_l1_l2 R _ _ m d 1 None s x).
+Proof.
+  intros Hs Hd Pw Lw Hx w.
+  assert (Lww : length w = (d * m)%nat).
+  { unfold w. clear -Lw. induction d; cbn [repeat concat]; [reflexivity|]. rewrite app_length, IHd. lia. }
+  assert (Hval : forall M, rows_ok d m M ->
+            @leaf_val R _ _ (FGroupBall m d true) w (concat M) = if forallb (fun a => Rleb a 1) (cn m M) then Some 0 else None).
+  { intros M RM. cbn [leaf_val]. unfold pw_normsq. rewrite (chunks_concat m d M RM). reflexivity. }
+  destruct (chunks_rows m d x Hx) as [RX CX]. set (X := chunks m d x) in *.
+  assert (Ldl : length (cdelta m X) = m) by (unfold cdelta; rewrite !map_length; apply (cn_len d); assumption).
+  assert (RP : rows_ok d m (crows (cdelta m X) X)) by (apply crows_rows; assumption).
+  assert (Ep : @prox_cc_l1_l2 R _ _ m d 1 None s x = concat (crows (cdelta m X) X)).
+  { unfold prox_cc_l1_l2, pw_norm, pw_normsq. fold X. fold (cn m X). numS. unfold crows. f_equal.
+    apply map_ext_in. intros c _. f_equal. unfold cdelta. rewrite !map_map. apply map_ext. intros a.
+    rewrite nmax_R. reflexivity. }
+  destruct (groupball_vi d m wb X Pw Lw RX) as [FP VP].
+  rewrite Ep. split; [apply (concat_len d m); assumption|].
+  exists 0. split.
+  - rewrite Hval by assumption. apply forallb_le1 in FP. rewrite FP. reflexivity.
+  - intros z Hz. destruct (chunks_rows m d z Hz) as [RZ CZ]. set (Z := chunks m d z) in *.
+    rewrite <- CZ, Hval by assumption.
+    destruct (forallb (fun a => Rleb a 1) (cn m Z)) eqn:EZ; cbn [ele]; [|exact I].
+    apply forallb_le1 in EZ.
+    rewrite (metric_scalar_dot (d * m)) by (auto using concat_len, repeat_length with vlen; try lra;
+                                          rewrite ?(vsub_concat d m) by assumption; apply (concat_len d m), msub_rows; assumption).
+    rewrite <- CX at 1. rewrite !(vsub_concat d m) by assumption. unfold w.
+    rewrite (wdot_concat d m wb Lw) by (apply msub_rows; assumption).
+    specialize (VP Z RZ EZ). assert (Hi : 0 < / s) by (apply Rinv_0_lt_compat; assumption). unfold Rdiv. nra.
+Qed.
+
